@@ -3,7 +3,7 @@
   good (`members_lemma`), hence the type `generateType` returns for a composite type is good
   (`level_statement`), for every selection set inside the envelope.
 -/
-import ApiFu.C20.LemLevel4
+import ApiFu.C20.LemWF
 
 namespace ApiFu.C20
 
@@ -43,7 +43,10 @@ def LevelStatement (S : Schema) (ft : List (Name × Name)) (env : List Decl)
       (fun td' s => genSels S ft td' (typenameFieldOf subs).isSome subs [] [] s) = .ok (ty, st') →
     setOK S ft td subs = true → EnumInv st →
     (∀ d ∈ st.decls, d ∈ st'.decls) ∧ EnumInv st' ∧
-    ((∀ d ∈ st'.decls, d ∈ env) → ∃ tyB, ty = ptrUnless nn tyB ∧ LevelGood S env frag td subs tyB)
+    ((∀ d ∈ st'.decls, d ∈ env) →
+      (∃ tyB, ty = ptrUnless nn tyB ∧ LevelGood S env frag td subs tyB) ∧
+      (FragNames ft (env.map Decl.name) → enumConstsOK S = true →
+        tyOK (env.map Decl.name) ty = true ∧ (StOK (env.map Decl.name) st → StOK (env.map Decl.name) st')))
 
 theorem genAt_composite {S : Schema} {n : Name} {td : TypeDef} (hl : S.lookup n = some td) (hc : isComposite td = true)
     (nonNull : Bool) (tnField : Option Name) (st : St) (walk : TypeDef → St → Except Err (Fields × Conds × St)) :
@@ -171,7 +174,10 @@ theorem member_step (henv : EnvOK env) (td : TypeDef) (hasTn : Bool) (s : Sel)
       (∀ c f, Conds.has c1 c f ↔ Conds.has conds c f ∨ FragPair ft td s c f) ∧
       (∀ d ∈ st.decls, d ∈ st1.decls) ∧ EnumInv st1 ∧
       (isFieldSel s = false → td.isObject = false → hasTn = true) ∧
-      ((∀ d ∈ st1.decls, d ∈ env) → MemberGood S env frag td s e) := by
+      ((∀ d ∈ st1.decls, d ∈ env) → MemberGood S env frag td s e ∧
+        (FragNames ft (env.map Decl.name) → enumConstsOK S = true →
+          isExported (fieldName e.key) = true ∧ tyOK (env.map Decl.name) e.ty = true ∧
+          (StOK (env.map Decl.name) st → StOK (env.map Decl.name) st1))) := by
   cases s with
   | spread f =>
     unfold genSel at hstep
@@ -182,8 +188,13 @@ theorem member_step (henv : EnvOK env) (td : TypeDef) (hasTn : Bool) (s : Sel)
       injection hstep with h1 h2
       injection h2 with h2 h3
       subst h1 h2 h3
-      refine ⟨⟨f, .ptr (.named (f ++ n_Fragment)), true⟩, ?_, rfl, ?_, fun d hd => hd, hinv, ?_, fun _ => ⟨rfl, rfl, rfl⟩⟩
+      simp only [selOK, Bool.and_eq_true] at hsel
+      refine ⟨⟨f, .ptr (.named (f ++ n_Fragment)), true⟩, ?_, rfl, ?_, fun d hd => hd, hinv, ?_,
+        fun _ => ⟨⟨rfl, rfl, rfl⟩, fun hfn _ => ⟨isExported_fieldName hsel.1.1, ?_, fun h => h⟩⟩⟩
       · exact Fields.set_of_fresh (fun x hx => by simpa [memberKey] using hfresh x hx)
+      rotate_left 2
+      · simp only [tyOK, List.contains_iff_mem]
+        exact hfn f hsel.2
       · intro c f'
         rw [Conds.has_add]
         simp [FragPair]
@@ -213,7 +224,7 @@ theorem member_step (henv : EnvOK env) (td : TypeDef) (hasTn : Bool) (s : Sel)
           injection h2 with h2 h3
           subst h1 h2 h3
           simp only [selOK, Bool.and_eq_true, hlc] at hsel
-          obtain ⟨⟨_, _⟩, ⟨hcomp, hmok⟩, hnd⟩ := hsel
+          obtain ⟨⟨hletter, _⟩, ⟨hcomp, hmok⟩, hnd⟩ := hsel
           obtain ⟨hmono, hinv', hsem⟩ := hIH _ ctd false st gen st2 hlc hcomp hgen
             (by simp [setOK, hmok, hnd]) hinv
           refine ⟨⟨cond.getD td.name, gen, true⟩, ?_, rfl, ?_, hmono, hinv', ?_, ?_⟩
@@ -226,8 +237,11 @@ theorem member_step (henv : EnvOK env) (td : TypeDef) (hasTn : Bool) (s : Sel)
             | true => rfl
             | false => simp [hobj] at hcond
           · intro henv1
-            obtain ⟨tyB, hty, hgood⟩ := hsem henv1
-            exact ⟨rfl, rfl, ctd, tyB, hlc, by simpa [ptrUnless] using hty, hgood⟩
+            obtain ⟨⟨tyB, hty, hgood⟩, hstatic⟩ := hsem henv1
+            refine ⟨⟨rfl, rfl, ctd, tyB, hlc, by simpa [ptrUnless] using hty, hgood⟩, ?_⟩
+            intro hfn hec
+            obtain ⟨h1, h2⟩ := hstatic hfn hec
+            exact ⟨isExported_fieldName hletter, h1, h2⟩
   | field alias name subs =>
     have hIH : LevelStatement S ft env frag subs := hIH
     unfold genSel at hstep
@@ -239,7 +253,9 @@ theorem member_step (henv : EnvOK env) (td : TypeDef) (hasTn : Bool) (s : Sel)
       injection hstep with h1 h2
       injection h2 with h2 h3
       subst h1 h2 h3
-      refine ⟨⟨alias.getD n_typename, .string, false⟩, ?_, rfl, ?_, fun d hd => hd, hinv, ?_, fun _ => ⟨rfl, rfl, by simp⟩⟩
+      simp only [selOK, Bool.and_eq_true] at hsel
+      refine ⟨⟨alias.getD n_typename, .string, false⟩, ?_, rfl, ?_, fun d hd => hd, hinv, ?_,
+        fun _ => ⟨⟨rfl, rfl, by simp⟩, fun _ _ => ⟨isExported_fieldName_of_keyOK hsel.1, by simp [tyOK], fun h => h⟩⟩⟩
       · exact Fields.set_of_fresh (fun x hx => by simpa [memberKey] using hfresh x hx)
       · intro c f'; simp [FragPair]
       · intro h; simp [isFieldSel] at h
@@ -277,9 +293,12 @@ theorem member_step (henv : EnvOK env) (td : TypeDef) (hasTn : Bool) (s : Sel)
         simp only [hft] at hsub
         -- the value part
         have hvalue : (∀ d ∈ st.decls, d ∈ st1.decls) ∧ EnumInv st1 ∧
-            ((∀ d ∈ st1.decls, d ∈ env) → ∀ v L, v.keysOK = true →
+            ((∀ d ∈ st1.decls, d ∈ env) → (∀ v L, v.keysOK = true →
               wrapLeaves (specBase S frag (shape ftype false).2.1 subs) (shape ftype false).2.2 (shape ftype false).1 v = some L →
-              Holds env (wrapSlices (shape ftype false).1 gen) v L) := by
+              Holds env (wrapSlices (shape ftype false).1 gen) v L) ∧
+              (FragNames ft (env.map Decl.name) → enumConstsOK S = true →
+                tyOK (env.map Decl.name) (wrapSlices (shape ftype false).1 gen) = true ∧
+                (StOK (env.map Decl.name) st → StOK (env.map Decl.name) st1))) := by
           cases hlb : S.lookup (shape ftype false).2.1 with
           | none => simp [hlb] at hsub
           | some btd =>
@@ -289,8 +308,10 @@ theorem member_step (henv : EnvOK env) (td : TypeDef) (hasTn : Bool) (s : Sel)
               obtain ⟨hmono, hinv', hsem⟩ := hIH _ btd _ st gen st1 hlb hcomp hgen
                 (by simp [setOK, hsub.1, hsub.2]) hinv
               refine ⟨hmono, hinv', ?_⟩
-              intro henv1 v L hk hw
-              obtain ⟨tyB, hty, hgood⟩ := hsem henv1
+              intro henv1
+              obtain ⟨⟨tyB, hty, hgood⟩, hstatic⟩ := hsem henv1
+              refine ⟨?_, fun hfn hec => by rw [tyOK_wrapSlices]; exact hstatic hfn hec⟩
+              intro v L hk hw
               rw [hty]
               refine wrapped_holds ?_ _ v L hk hw
               intro j Lj _ hkj hbj
@@ -321,7 +342,9 @@ theorem member_step (henv : EnvOK env) (td : TypeDef) (hasTn : Bool) (s : Sel)
                 injection hgen with h1 h2
                 subst h1 h2
                 refine ⟨fun d hd => hd, hinv, ?_⟩
-                intro _ v L hk hw
+                intro _
+                refine ⟨?_, fun _ _ => ⟨by rw [tyOK_wrapSlices, tyOK_ptrUnless]; exact tyOK_scalarTy _ hsub, fun h => h⟩⟩
+                intro v L hk hw
                 rw [hspec] at hw
                 exact wrapped_holds (fun j Lj _ _ hbj => scalar_holds env hlb j Lj hbj) _ v L hk hw
               | enum nm vs =>
@@ -344,11 +367,30 @@ theorem member_step (henv : EnvOK env) (td : TypeDef) (hasTn : Bool) (s : Sel)
                       exact ⟨cs, by simp [hcs]⟩
                 obtain ⟨⟨cs, hcs⟩, hmono, hinv'⟩ := hdecl
                 refine ⟨hmono, hinv', ?_⟩
-                intro henv1 v L hk hw
+                intro henv1
                 have hlook : lookupDecl env nm = some (.enum nm cs) := henv _ (henv1 _ hcs)
-                rw [hspec] at hw
-                rw [← h1]
-                exact wrapped_holds (fun j Lj _ _ hbj => enum_holds hlb hlook j Lj hbj) _ v L hk hw
+                refine ⟨?_, ?_⟩
+                · intro v L hk hw
+                  rw [hspec] at hw
+                  rw [← h1]
+                  exact wrapped_holds (fun j Lj _ _ hbj => enum_holds hlb hlook j Lj hbj) _ v L hk hw
+                · intro _ hec
+                  constructor
+                  · rw [← h1, tyOK_wrapSlices, tyOK_ptrUnless]
+                    simp only [tyOK, List.contains_iff_mem]
+                    exact List.mem_map.mpr ⟨_, henv1 _ hcs, rfl⟩
+                  · intro hst d hd
+                    rw [← h2] at hd
+                    by_cases hc : st.enums.contains nm = true
+                    · simp only [hc, if_true] at hd
+                      exact hst d hd
+                    · simp only [hc, Bool.false_eq_true, if_false, List.mem_append, List.mem_singleton] at hd
+                      rcases hd with hd | rfl
+                      · exact hst d hd
+                      · have hmemS := Schema.lookup_mem hlb
+                        have := List.all_eq_true.mp hec _ hmemS
+                        simp only at this
+                        simpa [declOK, List.map_map, Function.comp_def] using this
               | object a b c => simp [isComposite] at hcomp'
               | iface a b => simp [isComposite] at hcomp'
               | union a b => simp [isComposite] at hcomp'
@@ -359,9 +401,13 @@ theorem member_step (henv : EnvOK env) (td : TypeDef) (hasTn : Bool) (s : Sel)
         · intro c f'; simp [FragPair]
         · intro h; simp [isFieldSel] at h
         · intro henv1
-          refine ⟨rfl, rfl, ?_⟩
-          simp only [hn', Bool.false_eq_true, if_false]
-          exact ⟨ftype, hft, hval henv1⟩
+          obtain ⟨hv1, hv2⟩ := hval henv1
+          refine ⟨⟨rfl, rfl, ?_⟩, ?_⟩
+          · simp only [hn', Bool.false_eq_true, if_false]
+            exact ⟨ftype, hft, hv1⟩
+          · intro hfn hec
+            obtain ⟨h1, h2⟩ := hv2 hfn hec
+            exact ⟨isExported_fieldName_of_keyOK hkok, h1, h2⟩
 
 /-- The generator's loop over a selection set. -/
 theorem members_lemma (henv : EnvOK env) (td : TypeDef) (hasTn : Bool) :
